@@ -16,7 +16,7 @@ func init() {
 	register(&Prop{
 		ID:         "C06",
 		Title:      "Condition, filter and key expressions evaluate per DynamoDB semantics",
-		Decided:    "the clauses that are visible in the shape of the code: (R1) the precedence table orders OR < AND < NOT < every comparator, NOT's operand and every infix operator's right operand are parsed at the operator's own level (left-associative), and the set of tokens with an infix handler equals the set with a precedence; (R2) in each comparator function (a switch over the operator string with the six comparator labels) the case for label c returns left ⊙ right with the Go operator that c denotes, operands in (left,right) order; (R3) BETWEEN is min <= v AND v <= max for each comparable type; (R4) exhaustiveness: Eval has a case for every node kind the condition parser can build, every registered infix token is handled, the function registry is exactly the six condition and two update functions with the right ForUpdate flags, the type-name table has the ten types and the comparable types are N, S, B; (R5) existence of an attribute is decided with the undefined test, never with the NULL type tag (a NULL-typed attribute exists); (R6) evaluating a condition reaches no object or environment mutator and never writes the caller's item; (R7) with a missing operand '=' is false and '<>' is true; (R8) two evaluator objects are compared by pointer identity only against the process-wide singletons (TRUE, FALSE, UNDEFINED) or when both are known booleans – an identity shortcut elsewhere makes two different missing operands equal and two equal numbers different.",
+		Decided:    "the clauses that are visible in the shape of the code: (R1) the precedence table orders OR < AND < NOT < every comparator, NOT's operand and every infix operator's right operand are parsed at the operator's own level (left-associative), and the set of tokens with an infix handler equals the set with a precedence; (R2) in each comparator function (a switch over the operator string with the six comparator labels) the case for label c returns left ⊙ right with the Go operator that c denotes, operands in (left,right) order; (R3) BETWEEN is min <= v AND v <= max for each comparable type; (R4) exhaustiveness: Eval has a case for every node kind the condition parser can build, every registered infix token is handled, the function registry is exactly the six condition and two update functions with the right ForUpdate flags, the type-name table has the ten types and the comparable types are N, S, B; (R5) existence of an attribute is decided with the undefined test, never with the NULL type tag (a NULL-typed attribute exists); (R6) evaluating a condition reaches no object or environment mutator and never writes the caller's item; (R7) with a missing operand '=' is false and '<>' is true; (R8) two evaluator objects are compared by pointer identity only against the process-wide singletons (TRUE, FALSE, UNDEFINED) or when both are known booleans – an identity shortcut elsewhere makes two different missing operands equal and two equal numbers different; (R9) in the evaluators of IN and BETWEEN every use of the left operand's value in a comparison, equality or containment call is dominated by the not-undefined side of the undefined test of that value: a missing attribute makes the condition false, it never equals another missing attribute.",
 		NotDecided: "the truth value of an arbitrary expression on an arbitrary item: structural equality of documents, set semantics, IN, contains, size, begins_with results, independence from attribute order – all value-level.",
 		Rules: []RuleDef{
 			{ID: "R1", Desc: "precedence table and its use by the Pratt parser (T-TABLE)", Run: c06R1},
@@ -27,6 +27,7 @@ func init() {
 			{ID: "R6", Desc: "condition evaluation is free of mutation (T-PURE)", Run: c06R6},
 			{ID: "R7", Desc: "missing-operand semantics of = and <> (T-TABLE)", Run: c06R7},
 			{ID: "R8", Desc: "objects are compared by identity only against the singletons or when both are known booleans (T-GUARD)", Run: c06R8},
+			{ID: "R9", Desc: "IN and BETWEEN: the left operand is only compared once it is known to be defined (T-DOM)", Run: c06R9},
 		},
 	})
 }
@@ -1023,5 +1024,99 @@ func c06R8(e *Engine) {
 	}
 	if n < 3 {
 		e.fail("R8", "count:R8", "-", "only %d object identity comparisons found", n)
+	}
+}
+
+// c06R9: IN / BETWEEN over a missing attribute are false. All missing operands evaluate to the one UNDEFINED object, so a
+// generic equality or containment routine applied to the left value without the undefined test makes `a IN (b)` true when a
+// and b are both missing.
+func c06R9(e *Engine) {
+	isUndef := e.fn("lang", "isUndefined")
+	isErr := e.fn("lang", "isError")
+	if !e.anchor("R9", "lang.isUndefined", isUndef == nil) {
+		return
+	}
+	n := 0
+	for _, fn := range e.funcs("lang") {
+		if fn.Parent() != nil || len(fn.Params) == 0 {
+			continue
+		}
+		var node *ssa.Parameter
+		for _, p := range fn.Params {
+			if nt := namedOf(p.Type()); nt != nil && (nt.Obj().Name() == "InExpression" || nt.Obj().Name() == "BetweenExpression") {
+				node = p
+			}
+		}
+		if node == nil || fn.Signature.Recv() != nil {
+			continue // methods of the node types (printing) are not evaluators
+		}
+		// the left operand's value: result of a call fed with node.Left
+		var val *ssa.Call
+		instrs(fn, func(in ssa.Instruction) {
+			c, ok := in.(*ssa.Call)
+			if !ok || val != nil {
+				return
+			}
+			for _, a := range c.Call.Args {
+				if descendsFrom(a, node, 0) && operandName(a, node) == "Left" {
+					val = c
+				}
+			}
+		})
+		construct := e.fname(fn) + ":left-operand-defined-before-compared"
+		if val == nil {
+			e.undecided("R9", construct, e.pos(fn.Pos()), "evaluation of the left operand not found")
+			continue
+		}
+		n++
+		bad := ""
+		uses := 0
+		instrs(fn, func(in ssa.Instruction) {
+			c, ok := in.(*ssa.Call)
+			if !ok || c == val || isBuiltin(c) {
+				return
+			}
+			usesVal := false
+			for _, a := range c.Call.Args {
+				if strip(a) == ssa.Value(val) {
+					usesVal = true
+				}
+			}
+			if c.Call.IsInvoke() && strip(c.Call.Value) == ssa.Value(val) {
+				switch c.Call.Method.Name() {
+				case "Type", "Inspect":
+					return
+				}
+				usesVal = true
+			}
+			if !usesVal {
+				return
+			}
+			if g := c.Call.StaticCallee(); g == isUndef || (isErr != nil && g == isErr) {
+				return
+			}
+			uses++
+			guarded := false
+			for _, cd := range condsAt(c.Block()) {
+				cd = normCond(cd)
+				if t, ok := cd.V.(*ssa.Call); ok && !cd.Val && t.Call.StaticCallee() == isUndef && len(t.Call.Args) == 1 && strip(t.Call.Args[0]) == ssa.Value(val) {
+					guarded = true
+				}
+			}
+			if !guarded {
+				bad = "the left value is handed to " + staticCalleeName(c) + " at " + e.ipos(c) + " without having been tested for undefined"
+				if c.Call.IsInvoke() {
+					bad = "the left value is used in " + c.Call.Method.Name() + " at " + e.ipos(c) + " without having been tested for undefined"
+				}
+			}
+		})
+		if bad != "" {
+			e.fail("R9", construct, e.pos(fn.Pos()), "%s: every missing attribute is the same UNDEFINED object, so a missing left operand compares equal to a missing candidate and the condition holds although the attribute does not exist", bad)
+		} else {
+			e.pass("R9", construct, e.pos(fn.Pos()), "%d comparing use(s) of the left value, each on the defined side of its undefined test", uses)
+		}
+	}
+	if n < 2 {
+		e.fail("R9", "count:R9", "-", "only %d IN/BETWEEN evaluators found", n)
 	}
 }
